@@ -111,11 +111,16 @@ def canonicalise(fd):
     for ri, ci in best:
         d, nm, _ = cur[ci]
         want = refl[ri][0]
-        if nm != want:
+        if nm != want and not nm.startswith("__") and not want.startswith("__"):      # never the compiler's own variables (__range1, ...)
             mapping[d] = want
     # a reference name must not collide with a variable that keeps its own (unaligned) name
+    # the renaming must stay injective: a reference name already carried by a variable that keeps its name, or wanted
+    # by two variables, is not handed out
     keep = {nm for (d, nm, _) in cur if d not in mapping}
-    mapping = {d: w for d, w in mapping.items() if w not in keep or True}
+    wanted = {}
+    for d, w in mapping.items():
+        wanted.setdefault(w, []).append(d)
+    mapping = {d: w for d, w in mapping.items() if w not in keep and len(wanted[w]) == 1}
     if not mapping:
         return 0
     for p in fd.get("params", []):
